@@ -7,6 +7,9 @@ struct GenOpts {
     int S = 8;             // schedules per configuration
     int force_prec = -1;
     long index = 0;        // running index (seed - base), used by enumerating profiles
+    long alloc_K = 0;      // alloc profile: allocator requests of the fault-free run of this configuration
+    std::vector<long> bounds; // alloc profile: cumulative caller-workspace usage after each request of a sufficient run
+    long lwork_sufficient = 0;
 };
 
 // Everything about run `seed` of `profile`.  The configuration (matrix, values, options, tunables) is a
